@@ -1,4 +1,5 @@
 import MioModel.Lemmas.NodeOrder
+import MioModel.Lemmas.Handover
 /-! # C15 — Events that happen before for_each() are kept, in order, and delivered first
 
 Network events are numbered in the order the processor produces them: the `c` events cached between
@@ -43,5 +44,90 @@ theorem pipeline_in_order (mode : Mode) (c : Nat) (s : St) (h : Reachable mode c
 example : ∃ s, run (init .async 2) [.start, .callerRelease, .net 0, .net 0, .net 0, .net 0, .net 0,
     .sig true, .sig true, .net 0, .net 0, .net 0, .net 0, .net 0, .net 0, .net 0, .net 1, .net 0, .net 0, .net 0] = some s ∧
     netLog s = [0, 1, 2] := ⟨_, rfl, rfl⟩
+
+/-! ## The hand-over itself (model M4h, `MioModel/Handover.lean`)
+
+The theorems above start from "`c` events are in the cache".  These say how the cache gets there: the
+caching thread, the listener call and the network at any interleaving. -/
+section handover
+open Mio.Handover
+
+/-- at every moment of the hand-over — before, during and after the listener call, for any amount of
+activity — the cached events followed by those still waiting in the poller are all the events that
+occurred, in the order they occurred -/
+theorem handover_keeps_everything_in_order (s : Handover.St) (h : Handover.Reachable s) :
+    s.cache ++ s.pending = List.range s.next :=
+  (Handover.reachable_inv s h).all
+
+/-- what the listener call receives from `join()` is exactly the cache of the finished caching thread:
+the events `0 … c-1` for `c` its length, the later ones still waiting in the poller it took over — the
+initial state `Node.init mode c` of the delivery model, whose cache is this list -/
+theorem handover_gives_the_cached_prefix (s : Handover.St) (h : Handover.Reachable s) (c : List Nat)
+    (ht : s.taken = some c) (mode : Mode) :
+    c = List.range c.length ∧ s.pending = List.range' c.length (s.next - c.length) ∧
+    (Node.init mode c.length).cache = c := by
+  have hi := Handover.reachable_inv s h
+  obtain ⟨hc, _, _⟩ := hi.taken c ht
+  have hall := hi.all
+  rw [← hc] at hall
+  have hlen : c.length + s.pending.length = s.next := by
+    have := congrArg List.length hall
+    simpa using this
+  have h1 : c = List.range c.length := by
+    have := congrArg (List.take c.length) hall
+    rw [List.take_left, List.take_range] at this
+    have hm : min c.length s.next = c.length := by omega
+    rw [hm] at this; exact this
+  have h2 : s.pending = List.range' c.length (s.next - c.length) := by
+    have := congrArg (List.drop c.length) hall
+    rw [List.drop_left] at this
+    rw [this, List.range_eq_range', List.drop_range']
+    simp
+  exact ⟨h1, h2, by simp only [Node.init]; exact h1.symm⟩
+
+/-- **bounded for any traffic**: once the listener call has cleared the flag, the caching thread takes at
+most two more steps (the poll it may be in, then the look at the flag) in every schedule, however many
+events arrive in between -/
+theorem handover_bounded_for_any_traffic (s s' : Handover.St) (acts : List Handover.Act)
+    (hf : s.flag = false) (hr : Handover.run s acts = some s') : acts.count .cache ≤ 2 := by
+  have := Handover.run_remaining acts s s' hf hr
+  have : remaining s ≤ 2 := by unfold remaining; split <;> omega
+  omega
+
+/-- … and no schedule blocks: while the listener call waits in `join()`, either the caching thread can
+step or `join()` returns -/
+theorem handover_no_deadlock (s : Handover.St) (hl : s.lpc = .cleared) :
+    (∃ s', Handover.step s .cache = some s') ∨ (∃ s', Handover.step s .join = some s') := by
+  cases hc : s.cpc with
+  | check => exact .inl (by simp [Handover.step, hc])
+  | poll => exact .inl (by simp [Handover.step, hc])
+  | done => exact .inr (by simp [Handover.step, hc, hl])
+
+/-- the contrast (a caching thread that polls again whenever a poll was answered): for every `n` there is
+a schedule in which it takes `n` steps after the flag was cleared and is still polling — with steady
+traffic the listener call never gets the poller -/
+theorem until_timeout_variant_can_starve (n : Nat) (s : Handover.St) (hp : s.cpc = .poll) :
+    ∃ acts s', acts.count .cache = n ∧ Handover.runUntil s acts = some s' ∧ s'.cpc = .poll ∧
+      s'.flag = s.flag := by
+  induction n generalizing s with
+  | zero => exact ⟨[], s, rfl, rfl, hp, rfl⟩
+  | succ n ih =>
+    let s1 : Handover.St := { s with pending := s.pending ++ [s.next], next := s.next + 1 }
+    let s2 : Handover.St := { s1 with cache := s1.cache ++ s1.pending, pending := [] }
+    obtain ⟨acts, s', h1, h2, h3, h4⟩ := ih s2 hp
+    refine ⟨.arrive :: .cache :: acts, s', ?_, ?_, h3, h4⟩
+    · simp [h1]
+    · have e1 : Handover.stepUntil s .arrive = some s1 := rfl
+      have e2 : Handover.stepUntil s1 .cache = some s2 := by
+        simp [Handover.stepUntil, s1, s2, hp]
+      simp only [Handover.runUntil, e1, e2, h2]
+
+/-! Non-vacuity: two events occur, the caching thread polls them, a third occurs, the listener call is
+made while the thread is inside a poll; a fourth arrives; the thread finishes its poll, sees the flag,
+returns; `join()` hands over `[0, 1, 2, 3]`… -/
+example : ∃ s, Handover.run {} [.arrive, .arrive, .cache, .cache, .arrive, .cache, .call, .arrive, .cache,
+    .cache, .join, .arrive] = some s ∧ s.taken = some [0, 1, 2, 3] ∧ s.pending = [4] := ⟨_, rfl, rfl, rfl⟩
+
+end handover
 
 end Mio.C15
